@@ -7,7 +7,8 @@ from .. import gram
 from ..runner import sut, expect, Fail, SutError
 
 ID = 'C20'
-RULE = ('cases: a valid string from the grammar generators (with fragment definitions where needed) plus exactly '
+RULE = ('[additionally: definition of a lower-level fragment removed from a multi-level string; faulty fragment blocks read into a library that holds the names; surplus empty positional entries] '
+        'cases: a valid string from the grammar generators (with fragment definitions where needed) plus exactly '
         'one injected fault of a drawn type, placed at EVERY position of that string where it can be placed (one '
         'variant per position): dangling ring marker (digit or %n; top level, nested branch, multiplied unit), '
         'ring bond duplicating an existing edge (chain neighbours, anchor/branch head, second ring bond on a '
